@@ -99,7 +99,7 @@ class DPTScaling(DPTNumeric):
             knx_value = round((percent_value - cls.value_min) / delta * 255)
 
             return DPTArray(knx_value)
-        except ValueError as err:
+        except (ValueError, OverflowError) as err:
             raise ConversionError(
                 f"Could not serialize {cls.dpt_name()}", value=value
             ) from err
